@@ -120,6 +120,19 @@ def r07a(ctx):
                             if e[0] == 'agg' and 'Range' in e[2] and any(r.rooted_at(dict(e[3]).get('end', ('top',)), y[4]) for y in R if not y[1] and y[0] == 'u32' and y[3] < x[3]):
                                 okb = True
                 ctx.check(okb, 'R07a', path, 'group bound@%d' % x[3], '%s:%d' % (r.body['file'], x[3]), 'the repeated group is bounded by a count token read before it')
+            # bulk groups (`buf.resize(n, 0); read_u32s(r, &mut buf)`): the buffer length is exactly a count token read
+            # before, not a clamped / derived value (a shorter buffer silently truncates the group and misaligns the rest)
+            for t in serde.tokens(r):
+                if t['dir'] != 'r' or t['width'] not in ('u32s', 'u64s'):
+                    continue
+                buf = r.arg(t['block'], 1) if len(r.term(t['block'])['args']) > 1 else None
+                rz = [c for c in r.calls('alloc::vec::Vec::resize') if buf is not None and flow.show(r.arg(c, 0)) == flow.show(buf) and r.cfg.must_pass(t['block'], via_blocks=[c])]
+                okz = False
+                for c in rz:
+                    n_ = r.arg(c, 1)
+                    okz = okz or any(r.rooted_at(n_, y[4]) for y in R if not y[1] and y[0] == 'u32' and y[3] <= t['line'])
+                ctx.check(bool(rz) and okz, 'R07a', path, 'bulk bound@%d' % t['line'], '%s:%d' % (r.body['file'], t['line']), 'the bulk-read buffer is sized by exactly the count token read before it',
+                          'a bulk-read group is not sized by its count token (a clamped or derived length truncates the group and misaligns everything read after it)')
     # writer: count == list length before each group
     for fld in ('chunk_hashes', 'chunk_boundary_offsets', 'unpacked_chunk_offsets'):
         eq = edges_where(w, lambda op, l, r: op == 'Eq' and flow.mentions(l, lambda z: z[0] == 'field' and z[2] == 'num_chunks') and 'len' in flow.show(r) and flow.mentions(r, lambda z: z[0] == 'field' and z[2] == fld))
